@@ -150,7 +150,8 @@ CHECKS = {
               "4*length+8 is never exhausted; results do not depend on the fuel once sufficient); every successfully read form consumes at "
               "least one byte; at the nesting limit read from the source the reader does not descend into any collection, tag, discard or "
               "metadata form, so recursion depth is bounded independently of the input; ratio_gcd terminates with the mathematical gcd for "
-              "all int64 operands incl. INT64_MIN. Real stack and time are monitored, not proved: nesting families (each opener, #tag, #_, ^x, "
+              "all int64 operands incl. INT64_MIN; a fault-free read of an n-byte document whose string literals decode makes at most 5n + n/64 + 9 allocation requests (over the allocation-aware model; the request count is "
+              "compared with the code by the H stream of C16; without the hypothesis the count grows like n^1.9 on a family the proof attempt produced - recorded in DESIGN.md). Real stack and time are monitored, not proved: nesting families (each opener, #tag, #_, ^x, "
               "namespaced maps, mixed, discard runs, comment runs, closers) at depths 1..3*10^5 (10^6 thorough) run in the -O2, -O0 and sanitised "
               "builds under a 1 MiB stack and a CPU limit; generated and corrupted documents under the same limits; wall time on widening "
               "families must grow at most quadratically."),
